@@ -895,6 +895,56 @@ func (w *W) opMerge() string {
 			} else {
 				p = cands[t.Choose(len(cands), "field-opt-path")]
 			}
+			// "*" for every index of a list: one index segment of the path is generalised, unless
+			// another option already addresses an index (or every index) of the same list
+			if t.Chance(1, 4, "field-opt-star") {
+				at := -1
+				for i, x := range p {
+					if _, err := strconv.Atoi(x); err == nil {
+						at = i
+					}
+				}
+				if at >= 0 {
+					p = append([]string{}, p...)
+					p[at] = "*"
+				}
+			}
+			clashIdx := false
+			for i, x := range p {
+				_, err := strconv.Atoi(x)
+				if err != nil && x != "*" {
+					continue
+				}
+				for _, q := range mo.Fields {
+					if q.Wild || len(q.Path) <= i {
+						continue
+					}
+					_, qerr := strconv.Atoi(q.Path[i])
+					if (qerr == nil || q.Path[i] == "*") && (q.Path[i] == "*" || x == "*") && strings.Join(q.Path[:i], ".") == strings.Join(p[:i], ".") {
+						clashIdx = true
+					}
+				}
+			}
+			// "x.*" is also how the option tree marks the policy of x itself: an option for a list and
+			// an option through "every index" of the same list cannot both be represented
+			for _, q := range mo.Fields {
+				if q.Wild {
+					continue
+				}
+				for i, x := range p {
+					if x == "*" && len(q.Path) == i && strings.Join(q.Path, ".") == strings.Join(p[:i], ".") {
+						clashIdx = true
+					}
+				}
+				for i, x := range q.Path {
+					if x == "*" && len(p) == i && strings.Join(p, ".") == strings.Join(q.Path[:i], ".") {
+						clashIdx = true
+					}
+				}
+			}
+			if clashIdx {
+				continue
+			}
 			key := strings.Join(p, ".")
 			last := p[len(p)-1]
 			if used[key] || used["**."+last] || used["~"+last] {
@@ -930,6 +980,11 @@ func (w *W) opMerge() string {
 			used[key] = true
 			used["~"+last] = true
 			mo.Fields = append(mo.Fields, fo)
+			if !fo.Wild && last == "*" {
+				// ("x.*" is how the library spells "x" itself: the elements of x are "x.*.*")
+				name += ".*"
+				w.R.Probe("merge: per-field policy for every element of a list")
+			}
 			opts = append(opts, w.fieldOption(h, name))
 			fdesc = append(fdesc, fmt.Sprintf("%s=%s", name, h))
 		}
@@ -1082,13 +1137,20 @@ func spuriousMatch(p []string, trees ...*model.Node) bool {
 			for i, s := range segs {
 				q[i] = s.String()
 			}
-			if q[len(q)-1] != p[len(p)-1] {
+			eq := func(ps, qs string) bool {
+				if ps == qs {
+					return true
+				}
+				_, err := strconv.Atoi(qs)
+				return ps == "*" && err == nil
+			}
+			if !eq(p[len(p)-1], q[len(q)-1]) {
 				return
 			}
 			same := len(q) == len(p)
 			if same {
 				for i := range p {
-					if p[i] != q[i] {
+					if !eq(p[i], q[i]) {
 						same = false
 					}
 				}
@@ -1099,7 +1161,7 @@ func spuriousMatch(p []string, trees ...*model.Node) bool {
 			// p[:-1] subsequence of q[:-1]?
 			j := 0
 			for i := 0; i < len(q)-1 && j < len(p)-1; i++ {
-				if q[i] == p[j] {
+				if eq(p[j], q[i]) {
 					j++
 				}
 			}
